@@ -224,6 +224,112 @@ pub fn plan(prop: &str, tier: &str) -> Option<Plan> {
             rule = "every configuration: new_many N in 0..=5; new_many_iter count in 0..=5 x consumed prefix x {drop, abort} x position of the iterator's end among the releases; weak_many N in 0..=4 x position of the receiver's release; each with and without rounds in between; plus concurrent release of the shares by two threads";
             bounds = json!({"N": "0..=5", "count": "0..=5", "weak N": "0..=4", "configurations": total});
         }
+        "C13" | "C14" => {
+            let two: &[i64] = &[0, 2, 5, 6, 7];
+            let three: &[i64] = &[1, 3, 4];
+            let bags: &[i64] = &[64, 2];
+            for &bag in bags {
+                for &pr in two {
+                    b.add("ebr/sections", &[0], &[&[("prog", pr), ("bag", bag)]], if quick { 2 } else { 4 });
+                }
+            }
+            // one two-thread program deeper already in the quick tier
+            if quick {
+                b.add_sliced("ebr/sections", &[0], &[&[("prog", 0), ("bag", 64)]], 3, 8);
+            }
+            for &pr in three {
+                for &bag in (if quick { &[64i64][..] } else { bags }) {
+                    b.add_sliced("ebr/sections", &[0], &[&[("prog", pr), ("bag", bag)]], if quick { 2 } else { 3 }, if quick { 8 } else { 16 });
+                }
+            }
+            if !quick {
+                for &pr in two {
+                    b.add("ebr/sections", &[7, 65535], &[&[("prog", pr), ("bag", 2)]], 3);
+                }
+            }
+            if prop == "C14" {
+                b.add("rc/long-disposal", &[0, 14], &[&[("n", 130)]], if quick { 1 } else { 2 });
+                b.goal("rc/long-disposal", "repinned");
+                b.goal("rc/long-disposal", "cascade-child-destructed");
+            }
+            b.goal("ebr/sections", "closure-ran");
+            b.goal("ebr/sections", "epoch-advanced");
+            b.goal("ebr/sections", "repinned");
+            rule = "every schedule with at most B preemptions, at every access of an epoch variable or of a queue/registry pointer, of 8 programs of 2-3 participants on a private collector (reader vs deferrer, two deferrers and a long reader, nested guards, racing advancers, registration during a traversal, reactivation, a collection that re-pins, unregistration under a live guard) x bag capacities; non-trivial = deviates from the default schedule, distinct by event-trace hash";
+            bounds = json!({"threads": "2-3", "preemptions": if quick { "3 (2 threads) / 2 (3 threads)" } else { "4 / 3" }, "classes": sched::class_names(sched::EBR), "bag_capacity": bags});
+            let _ = three;
+        }
+        "C15" => {
+            let bq = if quick { 2 } else { 3 };
+            for mode in 0..4 {
+                for j in 0..=3 {
+                    for bag in [64, 2] {
+                        b.add("ebr/exit", &[0], &[&[("mode", mode), ("j", j), ("bag", bag), ("k", 3)]], bq);
+                    }
+                }
+            }
+            b.add_cases("ebr/payload", e(0), crate::scen::ebr::payload_cases(), 200);
+            b.goal("ebr/exit", "closure-ran");
+            b.goal("ebr/exit", "all-closures-accounted");
+            b.goal("ebr/payload", "all-closures-accounted");
+            rule = "concurrent: a thread defers 3 functions and leaves at every position in four ways (flush then exit, exit with the bag unflushed, handle dropped under a live guard, collector dropped with work pending) while another runs rounds, every schedule with at most B preemptions; sequential: closure size {0,1,8,16,23,24,25,32,64,256} x alignment {1..64} x bag capacity {1,2,3,64} x 7 fill levels x the four ways of leaving; each function must run exactly once with its captured bytes intact";
+            bounds = json!({"preemptions": bq, "classes": sched::class_names(sched::EBR), "payload_cases": crate::scen::ebr::payload_cases()});
+        }
+        "C16" => {
+            let depth = if quick { 6 } else { 7 };
+            let total = crate::scen::ebr::guard_seqs(depth as usize).len() as i64;
+            for inside in [0, 1] {
+                for peer in [0, 1] {
+                    b.add_cases("ebr/guards", e(0).set("depth", depth).set("inside", inside).set("peer", peer), total, 400);
+                }
+            }
+            b.goal("ebr/guards", "reactivate-sole");
+            b.goal("ebr/guards", "reactivate-after-sole");
+            b.goal("ebr/guards", "reactivate-after-panic");
+            b.goal("ebr/guards", "sequence-ran-inside-closure");
+            rule = "every well-formed sequence of at most d operations over {pin, drop g_i, reactivate g_i, reactivate_after(g_i, f)} with at most 3 live guards and f in {nop, nested pin+drop, panic}, at top level and inside a deferred function running during the thread's own collection, next to a second participant (pinned or not); after every step guard count, pinned bit, pinned epoch and the peer's state are compared with a nesting model";
+            bounds = json!({"depth": depth, "sequences": total, "contexts": 2, "peer": 2});
+        }
+        "C17" => {
+            let bq = if quick { 3 } else { 5 };
+            for pr in 0..7 {
+                b.add("ebr/queue", &[0], &[&[("prog", pr)]], bq);
+            }
+            if !quick {
+                for pr in 0..7 {
+                    b.add("ebr/queue", &[0], &[&[("prog", pr), ("classes", sched::EBR as i64)]], 2);
+                }
+            }
+            b.goal("ebr/queue", "history-checked");
+            b.goal("ebr/queue", "empty-pop");
+            rule = "every schedule with at most B preemptions (at every access of a queue pointer) of 7 programs of 2-3 threads x 1-2 operations over {push v, try_pop, try_pop_if(even), try_pop_if(<2)} on an empty / one-element / two-element queue; every complete history checked for linearizability against a FIFO with conditional pop by brute force";
+            bounds = json!({"threads": "2-3", "preemptions": bq, "classes": ["Raw"]});
+        }
+        "C18" => {
+            let bq = if quick { 3 } else { 5 };
+            for pr in 0..6 {
+                b.add("ebr/list", &[0], &[&[("prog", pr)]], bq);
+            }
+            b.add_sliced("ebr/sections", &[0], &[&[("prog", 4), ("bag", 64), ("claim", 18)]], 2, 4);
+            b.goal("ebr/list", "traverse-stalled");
+            b.goal("ebr/list", "traverse-complete");
+            b.goal("ebr/list", "list-finalize");
+            rule = "every schedule with at most B preemptions (at every access of a list pointer) of 6 programs of 2-3 threads over {insert, delete, traverse} on the real registry list with a harness element type; a traversal that does not stall must have visited every element inserted before it began and not deleted before it ended; every deleted element is unlinked exactly once; plus registration and unregistration of real participants during try_advance";
+            bounds = json!({"threads": "2-3", "preemptions": bq, "classes": ["Raw"]});
+        }
+        "C20" => {
+            let total = crate::scen::tls::cases();
+            for &e0 in (if quick { &[0i64, 14][..] } else { &[0i64, 5, 14, 65535][..] }).iter() {
+                b.add_cases("tls/destructor", e(e0), total, 30);
+            }
+            // the same with a second thread running rounds, teardown steps interleaved with it
+            let classes = sched::ALL as i64;
+            b.add_cases("tls/destructor", e(0).set("peer", 1).set("classes", classes).set("chain", 12), total, 6);
+            b.units.iter_mut().filter(|u| u.params.get("peer", 0) == 1).for_each(|u| u.bound = if quick { 1 } else { 2 });
+            b.goal("tls/destructor", "tls-destructor-ran");
+            rule = "every combination of TLS initialisation order {objects before the participant handle, after it, without it, around it} x destructor action of the first object (9) x of an optional second object (9+1): sequentially, and with a second thread running rounds under every schedule with at most B preemptions at all yield points (the thread's teardown runs under the scheduler); the thread must finish without panic or abort, every participant must unregister, and a survivor must reclaim everything within a bounded drain";
+            bounds = json!({"orders": 4, "actions": 9, "objects": "1-2", "cases": total, "preemptions": if quick { 1 } else { 2 }});
+        }
         "C12" => {
             let total = seq::decision_triples().len() as i64;
             let mut e0s: Vec<i64> = (0..16).collect();
@@ -241,6 +347,19 @@ pub fn plan(prop: &str, tier: &str) -> Option<Plan> {
             bounds = json!({"triples": total, "e0": e0s});
         }
         _ => return None,
+    }
+    if prop == "C16" || prop == "C20" {
+        // "does not panic" is part of these properties: run everything a second time in the
+        // binary with debug assertions on, where a wrong debug_assert! aborts inside a destructor
+        let mut dbg: Vec<Unit> = b.units.iter().cloned().collect();
+        for u in dbg.iter_mut() {
+            u.dbg = true;
+            u.params = u.params.clone().set("dbg", 1);
+        }
+        b.units.extend(dbg);
+        for u in b.units.iter_mut() {
+            u.death_is_violation = true;
+        }
     }
     Some(Plan {
         prop: prop.to_string(),
